@@ -19,6 +19,10 @@ import (
 	"github.com/ysugimoto/falco/v2/interpreter/value"
 )
 
+// Random director waits 10ms for each retry but backend health is never changed while waiting on the simulator,
+// so the .retries value is limited in order not to block the request for a long time
+const maxRandomDirectorRetries = 10
+
 var (
 	ErrQuorumWeightNotReached = errors.New("Quorum weight not reached")
 	ErrAllBackendsFailed      = errors.New("All backend failed")
@@ -274,6 +278,9 @@ func (i *Interpreter) directorBackendRandom(dc *value.DirectorConfig) (*value.Ba
 	maxRetry := dc.Retries
 	if maxRetry == 0 {
 		maxRetry = len(dc.Backends)
+	}
+	if maxRetry > maxRandomDirectorRetries {
+		maxRetry = maxRandomDirectorRetries
 	}
 
 	for retry := 0; retry < maxRetry; retry++ {
